@@ -401,14 +401,21 @@ func (p *proxyConn) handle() error {
 
 func (p *proxyConn) writeErrorResponse(req *http.Request, err error) error {
 	res := maybeConnectErrorResponse(err)
+	var challenge []string
 	if res == nil {
 		res = p.errorResponse(req, err)
+		// The challenge of a locally generated 407 is addressed to the client,
+		// it must survive the removal of hop-by-hop headers below.
+		challenge = res.Header.Values("Proxy-Authenticate")
 	}
 	if err := p.modifyResponse(res); err != nil {
 		log.Error(req.Context(), "error modifying error response", "error", err)
 		if !p.WithoutWarning {
 			proxyutil.Warning(res.Header, err)
 		}
+	}
+	if len(challenge) > 0 {
+		res.Header["Proxy-Authenticate"] = challenge
 	}
 	return p.writeResponse(res)
 }
